@@ -84,6 +84,40 @@ fn zlib(data: &[u8]) -> Vec<u8> {
     e.finish().unwrap()
 }
 
+fn compressed_chain(depth: usize, level: flate2::Compression) -> Vec<u8> {
+    let mut inner = vec![106u8];
+    for _ in 0..depth {
+        let mut e = flate2::write::ZlibEncoder::new(Vec::new(), level);
+        e.write_all(&inner).unwrap();
+        let z = e.finish().unwrap();
+        let mut n = vec![80u8];
+        n.extend_from_slice(&(inner.len() as u32).to_be_bytes());
+        n.extend_from_slice(&z);
+        inner = n;
+    }
+    let mut b = vec![131u8];
+    b.extend_from_slice(&inner);
+    b
+}
+
+/// oracle table for a chain of directly nested compressed sections, to any depth (what `oracle_for` does to depth 3)
+fn chain_oracle(b: &[u8]) -> Option<String> {
+    let mut entries = vec![];
+    let mut cur: Vec<u8> = b[1..].to_vec();
+    while cur.len() > 5 && cur[0] == 80 {
+        let z = cur[5..].to_vec();
+        let mut d = flate2::read::ZlibDecoder::new(&z[..]);
+        let mut out = Vec::new();
+        use std::io::Read;
+        if (&mut d).take(1 << 22).read_to_end(&mut out).is_err() {
+            break;
+        }
+        entries.push(format!("z:{}:{}:{}", hex(&z), if out.is_empty() { "-".into() } else { hex(&out) }, d.total_in()));
+        cur = out;
+    }
+    if entries.is_empty() { None } else { Some(entries.join(";")) }
+}
+
 fn inputs(ctx: &mut Ctx) -> Vec<(String, Vec<u8>)> {
     let mut v: Vec<(String, Vec<u8>)> = vec![];
     // every tag byte x count-field values x {no data, 1 byte, a little}
@@ -144,6 +178,12 @@ fn inputs(ctx: &mut Ctx) -> Vec<(String, Vec<u8>)> {
             v.push(("tower-compressed".into(), b));
         }
     }
+    // compressed sections nested directly in each other, nothing else: around the nesting limit (tied to the model
+    // through a chain oracle table) and far beyond it (a recursion that is not counted overflows the stack)
+    for d in [250usize, 255, 256, 257, 258, 300] {
+        v.push(("chain-compressed".into(), compressed_chain(d, flate2::Compression::best())));
+    }
+    v.push(("chain-compressed-deep".into(), compressed_chain(if ctx.thorough { 12_000 } else { 8_000 }, flate2::Compression::none())));
     // compressed sections that inflate to more / less than declared, and a zlib bomb
     let payload = erltf::encode(&erltf::OwnedTerm::Binary(vec![0u8; 5000])).unwrap()[1..].to_vec();
     for (name, data, declared) in [
@@ -294,8 +334,9 @@ pub fn run(ctx: &mut Ctx) {
             }
         }
         // model tie for the two main decoders (outcome class), where the oracle table is available and the line stays small
-        if b.len() <= 3000 {
-            if let Some(orc) = oracle_for(b) {
+        let orc = if kind == "chain-compressed" { chain_oracle(b) } else if b.len() <= 3000 { oracle_for(b) } else { None };
+        {
+            if let Some(orc) = orc {
                 let o = crate::c01::dec_result(b).0;
                 let bw = crate::c13::borrowed(b).0;
                 let oc = o.split(' ').next().unwrap().to_string();
